@@ -73,6 +73,34 @@ def model_fs(cases):
     return out
 
 
+def model_action_verdicts(texts, work):
+    """For each grammar text: does the Coq model of the action substitution (EmitAction.subst_action, on the implementation's
+    own action texts and tags) stop at some rule?  Returns list of None (front end refuses) / True (stops) / False."""
+    hx = lambda t: t.encode('utf8').hex() or '-'
+    paths = []
+    for i, t in enumerate(texts):
+        p = os.path.join(work, 'act%d.y' % i)
+        open(p, 'w').write(t)
+        paths.append(p)
+    dumps = vlib.run_dump(paths)
+    cmds = []
+    for i, d in enumerate(dumps):
+        if not d.get('ok'):
+            continue
+        tag_of = {s['id']: s['tag'] for s in d['symbols']}
+        for ri, r in enumerate(d['rules']):
+            if ri:
+                cmds.append('B a%dr%d 0 %s %d %s %s\n' % (i, ri, hx(tag_of.get(r['lhs'], '')), len(r['rhs'] or []),
+                                                       ' '.join(hx(tag_of.get(x, '')) for x in (r['rhs'] or [])), hx(r['action'] or '')))
+    stops = {}
+    for ln in vlib.model_eval_chunks(cmds):
+        f = ln.split()
+        if len(f) >= 3 and f[0] == 'B':
+            i = int(f[1][1:].split('r')[0])
+            stops[i] = stops.get(i, False) or f[2] == 'fail'
+    return [None if not d.get('ok') else stops.get(i, False) for i, d in enumerate(dumps)]
+
+
 def run_C19(ctx):
     bindir = vlib.build_impl()
     work = os.path.join(vlib.WORK, 'c19-%d' % os.getpid())
@@ -85,6 +113,14 @@ def run_C19(ctx):
     stages = {}
     try:
         preds = model_fs([(name, stage) for (name, stage, _) in faults] + [(name, 'none') for (name, _) in goods])
+        # the faults in semantic actions ($n out of range, untyped $$ / $n): the model of the substitution must stop exactly there
+        av = model_action_verdicts([t for (_, _, t) in faults] + [t for (_, t) in goods], work)
+        for (name, stage, want) in [(n, st, st == 'reduce') for (n, st, _) in faults] + [(n, 'none', False) for (n, _) in goods]:
+            got = av.pop(0)
+            ctx.evaluations += 1
+            if got is not None and got != want:
+                ctx.violation('no-failing-input-found', 'the model of the action substitution %s on %s, the fault list says the generation %s there'
+                              % ('stops' if got else 'goes through', name, 'stops' if want else 'does not stop'), dict(fault=name, stage=stage), interface='I9')
         for (name, stage, text) in faults:
             for (tn, args, ext) in TARGETS:
                 src = os.path.join(work, 'in.y')
